@@ -60,3 +60,6 @@ pub use self::{
     },
     static_wrapper::Static,
 };
+
+#[cfg(gc_arena_verif)]
+pub mod verif;
